@@ -6,7 +6,8 @@ CFG = {'assumptions': ['f64 inputs cross the boundary as bit patterns and are de
                  'polygon rings are closed (Polygon::new closes them; C18)'],
  'count': {'quick': 200000, 'thorough': 8000000},
  'lean_files': ['GeoModel/Area.lean', 'GeoModel/Winding.lean', 'GeoModel/SimpleRing.lean', 'GeoModel/Orient.lean',
-                'GeoModel/Ops/C05.lean', 'GeoProofs/Lemmas/C05Area.lean', 'GeoProofs/Lemmas/C05Winding.lean'],
+                'GeoModel/Ops/C05.lean', 'GeoProofs/Lemmas/C05Area.lean', 'GeoProofs/Lemmas/C05Winding.lean',
+                'GeoProofs/Lemmas/C05PConvex.lean', 'GeoProofs/Lemmas/C05PRotate.lean'],
  'rule': 'star-shaped (oblique, non-convex), two-sided histogram (rectilinear, collinear vertices) and junk '
          'rings on 3..8 grids under the 6 grid similarities, random start vertex (least vertex forced last in '
          '1/4), either direction, repeated vertices, doubly closed or open; polygons with 0-3 holes of '
